@@ -14,6 +14,7 @@ import json
 import os
 
 from lib import vlib
+from engines import startup
 from lib.vlib import Infra
 
 SPEC = os.path.join(vlib.SPECS, "crash")
@@ -103,6 +104,7 @@ def run(res, prop, tier, seed, work, replay=None):
         res.mismatch("C08", sig, "crash plan %s (after commit %s; verify=%s): check=%s restart=%s final==uncrashed: %s"
                      % (r["plan"], r["after"], r["verify"], r["check"][:80], r["restart"][:120], r["final"] == r["expected"]), rp)
     tstats = validate_traces(res, seed, tier, work, traces)
+    startup.run(res, prop, tier, seed, work)       # the version gate every one of these restarts passes first in a real node
     all_recs = vlib.read_ndjson(recs)
     plans = [r for r in all_recs if r["fn"] in ("crash", "torn")]
     torn = [r for r in plans if r["fn"] == "torn"]
